@@ -139,30 +139,13 @@ Definition ComputeCk_int := ComputeCk_with ck_prod_int.
 Definition ComputeCk_dom := ComputeCk_with ck_prod_dom.
 
 (* ------------------------------------------------------------------------------------------
-   The system objects.  _ck = [] means "not computed yet" (the code tests _ck.size() == 0). *)
+   The system objects.  The reciprocals _ck and the product _prod are computed by the constructors that receive the
+   primes (and by setPrimes); the const accessors product() / Reciprocals() / reciprocal(i) only read them (since
+   a42d959; before, they were filled lazily from the accessors).  RnsToMixedRadix still calls ComputeCk() when _ck is
+   empty, and ComputeCk() / ComputeProd() keep their guards ("_ck non-empty" / "_prod not one" = already computed). *)
 Record IntRNS := mkIntRNS { i_primes : list Z; i_prod : Z; i_ck : list Z }.
 
-(* IntRNSsystem(const array& primes): _primes(primes), _prod(one), _ck(0) *)
-Definition int_mk (primes : list Z) : IntRNS := mkIntRNS primes 1 [].
-(* the templated converting constructor IntRNSsystem(const Container<TT,Alloc<TT>>&): how its initialiser list sizes _ck
-   is READ FROM THE SOURCE by the check:  _ck(0) = CkEmpty (the unchanged tree);  _ck(inprimes.size()) = CkSized, i.e. a
-   table of default-constructed (zero) Integers that ComputeCk() then takes for "already computed" *)
-Inductive ckinit := CkEmpty | CkSized.
-Definition int_mk_tt (ci : ckinit) (primes : list Z) : IntRNS :=
-  mkIntRNS primes 1 (match ci with CkEmpty => [] | CkSized => repeat 0 (length primes) end).
-(* IntRNSsystem(): _primes(0), _prod(one), _ck(0) *)
-Definition int_default : IntRNS := mkIntRNS [] 1 [].
-
-(* which member of the source a copy constructor uses to initialise _ck; READ FROM THE SOURCE by the check
-   (givintrns.h:  _ck(R._primes)   as of the unchanged tree) *)
-Inductive cksrc := FromPrimes | FromCk | FromNothing.
-Definition int_copy (src : cksrc) (R : IntRNS) : IntRNS :=
-  mkIntRNS (i_primes R) (i_prod R)
-           (match src with FromPrimes => i_primes R | FromCk => i_ck R | FromNothing => [] end).
-(* implicit operator=: memberwise *)
-Definition int_assign (dst src : IntRNS) : IntRNS := src.
-
-(* ComputeCk(): if (_ck.size() != 0) return; ... *)
+(* ComputeCk(): if (_ck.size() != 0) return; if (size == 0) return; ... *)
 Definition int_ensure_ck (S : IntRNS) : IntRNS :=
   match i_ck S with
   | [] => mkIntRNS (i_primes S) (i_prod S) (ComputeCk_int (i_primes S))
@@ -171,38 +154,63 @@ Definition int_ensure_ck (S : IntRNS) : IntRNS :=
 (* ComputeProd(): if (isOne(_prod)) for all p: _prod *= p *)
 Definition int_ensure_prod (S : IntRNS) : IntRNS :=
   if i_prod S =? 1 then mkIntRNS (i_primes S) (fold_left Z.mul (i_primes S) (i_prod S)) (i_ck S) else S.
-Definition int_product (S : IntRNS) : IntRNS * Z :=
-  let S' := int_ensure_prod S in (S', i_prod S').
 
+(* IntRNSsystem(const array& primes): _primes(primes), _prod(one), _ck(0) { ComputeProd(); ComputeCk(); } *)
+Definition int_mk (primes : list Z) : IntRNS := int_ensure_ck (int_ensure_prod (mkIntRNS primes 1 [])).
+(* the templated converting constructor IntRNSsystem(const Container<TT,Alloc<TT>>&): same body after the element-wise
+   conversion.  How its initialiser list sizes _ck is READ FROM THE SOURCE by the check:  _ck(0) = CkEmpty (the unchanged
+   tree);  _ck(inprimes.size()) = CkSized, i.e. a table of default-constructed (zero) Integers that ComputeCk() then takes
+   for "already computed" *)
+Inductive ckinit := CkEmpty | CkSized.
+Definition int_mk_tt (ci : ckinit) (primes : list Z) : IntRNS :=
+  int_ensure_ck (int_ensure_prod
+    (mkIntRNS primes 1 (match ci with CkEmpty => [] | CkSized => repeat 0 (length primes) end))).
+(* IntRNSsystem(): _primes(0), _prod(one), _ck(0) *)
+Definition int_default : IntRNS := mkIntRNS [] 1 [].
+
+(* which member of the source a copy constructor uses to initialise _ck; READ FROM THE SOURCE by the check
+   (givintrns.h:  _ck(R._ck)   as of the unchanged tree) *)
+Inductive cksrc := FromPrimes | FromCk | FromNothing.
+Definition int_copy (src : cksrc) (R : IntRNS) : IntRNS :=
+  mkIntRNS (i_primes R) (i_prod R)
+           (match src with FromPrimes => i_primes R | FromCk => i_ck R | FromNothing => [] end).
+(* implicit operator=: memberwise *)
+Definition int_assign (dst src : IntRNS) : IntRNS := src.
+
+(* product() const { return _prod; } *)
+Definition int_product (S : IntRNS) : IntRNS * Z := (S, i_prod S).
+
+(* RnsToMixedRadix: if (_ck.size()==0) ComputeCk(); ... *)
 Definition int_RnsToMixedRadix (S : IntRNS) (residu : list Z) : IntRNS * list Z :=
   let S' := int_ensure_ck S in (S', RnsToMixedRadix_int (i_primes S') (i_ck S') residu).
 Definition int_RnsToRing (S : IntRNS) (residu : list Z) : IntRNS * Z :=
   let '(S', mix) := int_RnsToMixedRadix S residu in (S', MixedRadixToRing (i_primes S') mix).
 Definition int_RingToRns (S : IntRNS) (a : Z) : list Z := RingToRns (i_primes S) a.
-Definition int_Reciprocals (S : IntRNS) : IntRNS * list Z :=
-  let S' := int_ensure_ck S in (S', i_ck S').
+(* Reciprocals() const { return _ck; } *)
+Definition int_Reciprocals (S : IntRNS) : IntRNS * list Z := (S, i_ck S).
 
 (* RNSsystem<RING,Domain>: { _primes; _ck } *)
 Record DomRNS := mkDomRNS { d_primes : list Z; d_ck : list Z }.
-Definition dom_mk (primes : list Z) : DomRNS := mkDomRNS primes [].
-Definition dom_default : DomRNS := mkDomRNS [] [].
-(* RNSsystem(const Self_t& R) : _primes(R._primes, givWithCopy()), _ck(R._ck, givWithCopy()) *)
-Definition dom_copy (R : DomRNS) : DomRNS := mkDomRNS (d_primes R) (d_ck R).
-Definition dom_assign (dst src : DomRNS) : DomRNS := src.
-(* setPrimes: _primes.allocate(0); _primes.copy(inprimes); _ck.resize(0) *)
-Definition dom_setPrimes (S : DomRNS) (primes : list Z) : DomRNS := mkDomRNS primes [].
 Definition dom_ensure_ck (S : DomRNS) : DomRNS :=
   match d_ck S with
   | [] => mkDomRNS (d_primes S) (ComputeCk_dom (d_primes S))
   | _ => S
   end.
+(* RNSsystem(const domains& primes): _primes(primes, givWithCopy()), _ck(0) { ComputeCk(); } *)
+Definition dom_mk (primes : list Z) : DomRNS := dom_ensure_ck (mkDomRNS primes []).
+Definition dom_default : DomRNS := mkDomRNS [] [].
+(* RNSsystem(const Self_t& R) : _primes(R._primes, givWithCopy()), _ck(R._ck, givWithCopy()) *)
+Definition dom_copy (R : DomRNS) : DomRNS := mkDomRNS (d_primes R) (d_ck R).
+Definition dom_assign (dst src : DomRNS) : DomRNS := src.
+(* setPrimes: _primes.allocate(0); _primes.copy(inprimes); _ck.resize(0); ComputeCk(); *)
+Definition dom_setPrimes (S : DomRNS) (primes : list Z) : DomRNS := dom_ensure_ck (mkDomRNS primes []).
 Definition dom_RnsToMixedRadix (S : DomRNS) (residu : list Z) : DomRNS * list Z :=
   let S' := dom_ensure_ck S in (S', RnsToMixedRadix_dom (d_primes S') (d_ck S') residu).
 Definition dom_RnsToRing (S : DomRNS) (residu : list Z) : DomRNS * Z :=
   let '(S', mix) := dom_RnsToMixedRadix S residu in (S', MixedRadixToRing (d_primes S') mix).
 Definition dom_RingToRns (S : DomRNS) (a : Z) : list Z := RingToRns (d_primes S) a.
-Definition dom_Reciprocals (S : DomRNS) : DomRNS * list Z :=
-  let S' := dom_ensure_ck S in (S', d_ck S').
+(* Reciprocals() const { return _ck; } *)
+Definition dom_Reciprocals (S : DomRNS) : DomRNS * list Z := (S, d_ck S).
 
 (* ------------------------------------------------------------------------------------------
    ChineseRemainder<Ring,Domain,REDUCE>(R, M, D):
